@@ -70,6 +70,11 @@ func (x *c03Env) flagStore(n ast.Node) (f *types.Var, val bool, ok bool) {
 // flagLoad: call is atomicLoad(&x.F) or sync/atomic.LoadInt32(&x.F).
 func (x *c03Env) flagLoad(n ast.Node) *types.Var {
 	call, isCall := n.(*ast.CallExpr)
+	if isCall && len(call.Args) == 0 {
+		if fn := calleeOf(x.info, call); fn != nil && fn.Pkg() == x.pk.Types {
+			return x.flagAccessor(fn)
+		}
+	}
 	if !isCall || len(call.Args) != 1 {
 		return nil
 	}
@@ -81,6 +86,45 @@ func (x *c03Env) flagLoad(n ast.Node) *types.Var {
 		return nil
 	}
 	return x.addrField(call.Args[0])
+}
+
+// flagAccessor: fi is `func (…) bool { return <load of F> }` (possibly compared with a constant) -> F.
+func (x *c03Env) flagAccessor(fn *types.Func) *types.Var {
+	fi := x.c.P.FuncOfObj(fn)
+	if fi == nil || fi.Pkg != x.pk || fi.Decl.Body == nil || len(fi.Decl.Body.List) != 1 {
+		return nil
+	}
+	rs, ok := fi.Decl.Body.List[0].(*ast.ReturnStmt)
+	if !ok || len(rs.Results) != 1 {
+		return nil
+	}
+	var f *types.Var
+	ast.Inspect(rs.Results[0], func(n ast.Node) bool {
+		if call, ok := n.(*ast.CallExpr); ok && len(call.Args) == 1 {
+			if cf := calleeOf(x.info, call); cf != nil && (repoName(cf) == "vaxis.atomicLoad" || fullName(cf) == "sync/atomic.LoadInt32") {
+				f = x.addrField(call.Args[0])
+			}
+		}
+		return f == nil
+	})
+	if f == nil || !x.impliesLoad(rs.Results[0], true, f) || !x.impliesLoadFalse(rs.Results[0], f) {
+		return nil
+	}
+	return f
+}
+
+// impliesLoadFalse: e being false implies the flag is clear (so e is exactly "the flag is set").
+func (x *c03Env) impliesLoadFalse(e ast.Expr, f *types.Var) bool {
+	e = unparen(e)
+	switch t := e.(type) {
+	case *ast.CallExpr:
+		return x.flagLoad(t) == f
+	case *ast.BinaryExpr:
+		if t.Op == token.EQL || t.Op == token.NEQ {
+			return true // load ⋈ const: two-valued, the negation pins the other value (impliesLoad checked the constant)
+		}
+	}
+	return false
 }
 
 // addrField: e is &<path>.F with F a field of Vaxis.
@@ -301,7 +345,8 @@ func (x *c03Env) ruleI() {
 				continue
 			}
 			sends = append(sends, sendSite{f, g, s, h.Loc, ch})
-			for _, gd := range g.Guards(h.Loc) {
+			for _, ga := range x.guardsInter(f.fi, g, h.Loc, 0) {
+				gd := ga.gd
 				if gd.Cond.Tag != nil || gd.Cond.Alts != nil {
 					continue
 				}
@@ -329,8 +374,29 @@ func (x *c03Env) ruleI() {
 
 	for _, p := range plist {
 		F, CH := p.flag, p.ch
-		isClear := func(n ast.Node) bool {
-			return containsNode(n, func(m ast.Node) bool { f, v, ok := x.flagStore(m); return ok && !v && f == F })
+		var isClear func(n ast.Node) bool
+		clearing := map[*types.Func]int{} // 1: every path of the helper clears F, 2: not
+		isClear = func(n ast.Node) bool {
+			return containsNode(n, func(m ast.Node) bool {
+				if f, v, ok := x.flagStore(m); ok && !v && f == F {
+					return true
+				}
+				// a same-package helper that clears F on every path
+				if call, ok := m.(*ast.CallExpr); ok {
+					if fn := calleeOf(x.info, call); fn != nil {
+						if cfi := x.keyEnv().inReach[fn]; cfi != nil && cfi.Decl.Body != nil {
+							if clearing[fn] == 0 {
+								clearing[fn] = 2 // recursion guard
+								if okAll, _ := x.allPathsPass(c.P.Graph(cfi), c.P.Graph(cfi).Entry(), nil, isClear); okAll {
+									clearing[fn] = 1
+								}
+							}
+							return clearing[fn] == 1
+						}
+					}
+				}
+				return false
+			})
 		}
 		// i1 requester side
 		if len(requesters[F]) == 0 {
@@ -370,19 +436,20 @@ func (x *c03Env) ruleI() {
 			nSend++
 			base := fmt.Sprintf("%s/send on %s", s.f.name, canonPath(x.info, s.send.Chan))
 			guarded := false
-			for _, gd := range s.g.Guards(s.loc) {
+			for _, ga := range x.guardsInter(s.f.fi, s.g, s.loc, 0) {
+				gd := ga.gd
 				if gd.Cond.Tag == nil && gd.Cond.Alts == nil && x.impliesLoad(gd.Cond.Expr, gd.Pol, F) {
 					guarded = true
-					// i4: from the edge of the test, every path to the end of the function clears the flag
+					// i4: from the edge of the test, every path to the end of that function clears the flag
 					succ := gd.From.Succs[1]
 					if gd.Pol {
 						succ = gd.From.Succs[0]
 					}
-					okAll, badExit := x.allPathsPass(s.g, Loc{succ, 0}, nil, isClear)
+					okAll, badExit := x.allPathsPass(ga.g, Loc{succ, 0}, nil, isClear)
 					if okAll {
 						c.ok("C03.i", fmt.Sprintf("%s/reply path under %s always clears it", s.f.name, F.Name()), gd.Cond.Expr.Pos(), "every path from the test to the end of the function stores false")
 					} else {
-						c.bad("C03.i", fmt.Sprintf("%s/reply path under %s always clears it", s.f.name, F.Name()), x.exitPos(s.g, badExit, gd.Cond.Expr.Pos()),
+						c.bad("C03.i", fmt.Sprintf("%s/reply path under %s always clears it", s.f.name, F.Name()), x.exitPos(ga.g, badExit, gd.Cond.Expr.Pos()),
 							"a path that consumed the report as the awaited reply leaves the function (here) with %s still set: the next CSI … R is swallowed as well", F.Name())
 					}
 				}
@@ -390,6 +457,14 @@ func (x *c03Env) ruleI() {
 			c.check(guarded, "C03.i", base+" only while "+F.Name()+" is set", s.send.Pos(),
 				"dominated by the positive test of the flag", "the report is handed to "+CH.Name()+" without testing "+F.Name()+": a key press encoded as the same sequence (CSI 1;2R = Shift+F3) is consumed as a reply although nobody asked")
 			cleared := s.g.MustPrecede(isClear, s.loc)
+			for f2, hop := s.f.fi, 0; !cleared && f2 != nil && hop < 3; hop++ {
+				cs := x.uniqueCaller(f2)
+				if cs == nil {
+					break
+				}
+				cleared = cs.g.MustPrecede(isClear, cs.loc)
+				f2 = cs.fi
+			}
 			c.check(cleared, "C03.i", base+" after "+F.Name()+" was cleared", s.send.Pos(),
 				"every path to the hand-over stores false first", "the hand-over on "+CH.Name()+" is reachable without clearing "+F.Name()+": the requester's receive arm does not clear it either, so the flag outlives the request")
 		}
@@ -437,6 +512,9 @@ func (x *c03Env) ruleI() {
 		g := c.P.Graph(f.fi)
 		for _, h := range g.Find(func(n ast.Node) bool { fl := x.flagLoad(n); return fl != nil && flags[fl] }) {
 			fl := x.flagLoad(h.Node)
+			if x.flagAccessor(f.fi.Obj) == fl {
+				continue // the accessor itself; its callers are checked
+			}
 			cd := g.BranchCond(h.Loc.B)
 			if cd == nil || cd.Tag != nil || h.Loc.Idx != len(h.Loc.B.Nodes)-1 || !(x.impliesLoad(cd.Expr, true, fl) || x.impliesLoad(cd.Expr, false, fl)) {
 				c.undecided("C03.i", fmt.Sprintf("%s/test of %s", f.name, fl.Name()), h.Node.Pos(), "%s is loaded outside a branch condition whose polarity the rule understands", fl.Name())
